@@ -67,6 +67,12 @@ impl zeromq::__verif::TaskObserver for Observer {
     }
 }
 
+/// Mark this thread as (not) driving a single-threaded simulation: on rig
+/// threads library tasks migrate between workers and are counted globally.
+pub fn set_sim_thread(on: bool) {
+    SIM_THREAD.with(|s| s.set(on));
+}
+
 pub fn install_observer() {
     static DONE: AtomicBool = AtomicBool::new(false);
     if !DONE.swap(true, Ordering::SeqCst) {
@@ -115,6 +121,8 @@ pub fn run<F: Future>(f: F) -> F::Output {
     install_observer();
     SIM_THREAD.with(|s| s.set(true));
     GATE_CLOSED.with(|g| g.set(false));
+    // bookkeeping of an earlier case on this thread must not leak into this one
+    LIVE.with(|l| l.borrow_mut().clear());
     let rt = tokio::runtime::Builder::new_current_thread()
         .build()
         .expect("runtime");
